@@ -3,6 +3,7 @@ package testfs
 import (
 	"bytes"
 
+	"github.com/foxboron/go-uefi/efi/signature"
 	"github.com/foxboron/go-uefi/efi/util"
 	"github.com/foxboron/go-uefi/efivar"
 	"github.com/foxboron/go-uefi/internal/vsym"
@@ -46,5 +47,32 @@ func VC12_PlainRegister() {
 	vsym.AssertBytesEq(sa.got, next, "reading returns the value of the most recent write")
 	vsym.Assert(fs.GetVar(b, &sb) == nil, "read of the other variable succeeds")
 	vsym.AssertBytesEq(sb.got, other, "a write to one variable does not change another")
+	vsym.Reach("end")
+}
+
+// VC12_SignedRegister: a secure-boot variable holding an arbitrary previous value; one signed
+// update whose payload is a database of 0..1 SHA-256 lists; the read returns the payload with the
+// authentication descriptor removed.
+func VC12_SignedRegister() {
+	fs := NewTestFS().Open()
+	vars := []efivar.Efivar{efivar.PK, efivar.KEK, efivar.Db, efivar.Dbx}
+	v := vars[vsym.Pick("var", len(vars))]
+	prev := vSplit("prev", vsymC12Max)
+	vsym.Assert(fs.WriteVar(v, vValue(prev)) == nil, "setup write")
+	db := signature.NewSignatureDatabase()
+	n := vsym.Pick("entries", 3)
+	for i := 0; i < n; i++ {
+		names := []string{"h0", "h1"}
+		owner := util.EFIGUID{Data1: vsym.U32(names[i] + ".owner")}
+		vsym.Assert(db.Append(signature.CERT_SHA256_GUID, owner, vsym.BytesN(names[i], 32)) == nil || i > 0, "append")
+	}
+	signer := vsym.Signer("k1")
+	serial := vsym.BytesN("serial", 2)
+	vsym.Assume(serial[0] != 0)
+	cert := vsym.Cert(signer, vsym.BytesN("cert.raw", 5), vsym.BytesN("issuer", 3), serial)
+	vsym.Assert(fs.WriteSignedUpdate(v, db, signer, cert) == nil, "signed update succeeds")
+	var got signature.SignatureDatabase
+	vsym.Assert(fs.GetVar(v, &got) == nil, "reading the variable after a signed update succeeds")
+	vsym.AssertBytesEq(got.Bytes(), db.Bytes(), "the read returns the payload of the signed update, descriptor removed")
 	vsym.Reach("end")
 }
